@@ -1,4 +1,5 @@
 import Tup.Lemmas.DisplayCheck
+import Tup.Lemmas.RetentionSound
 /-!
   C08 — after upload-and-display the terminal shows the requested image.
 
@@ -58,6 +59,85 @@ theorem not_needed_means_held (cfg : Cfg) (thr : String → Thresholds)
     Spec.printOk (specThr t) (s.logs T) x d.token d.rows d.cols s.now = true := by
   intro s hinfo hdesc hneeds
   exact held_of_not_needs (run_good steps State.init (good_init cfg) hstrict).rel (hstrict T) hinfo hdesc hneeds
+
+/-! ### the two retention specifications (`Spec.Retention` of C04, `Spec.Store` of C08)
+
+  `retLog` forgets an arrival at the `Spec.Store` terminal `(id, token, rows, cols, size, time)` into the
+  arrival C04's ghost log records, `(id, description string, size, time)`. -/
+
+/-- **The two retention specifications agree** wherever `Spec.Retention` says "still there": on the same
+    history of arrivals, an image that C04's specification guarantees to be retained is retained by the
+    adversarial terminal of C08 (same count of later images — one per id, its latest copy —, same byte sum,
+    same age bound). -/
+theorem retention_specs_agree (t : Thresholds) (L : List Spec.Arrival) (x now : Nat)
+    (h : Spec.Retention.stillThere t (retLog L) x now = true) : Spec.retained (specThr t) L x now = true := by
+  obtain ⟨a, hl, hn, hb, ht⟩ := (stillThere_iff t L x now).1 h
+  exact (retained_iff t L x now).2 ⟨a, hl, hn, Or.inr hb, ht⟩
+
+/-- … and they differ in exactly one clause, which `Spec.Store` adds on purpose: the byte quota never evicts
+    the image that arrived last. `retained` holds iff `stillThere` holds, or nothing has arrived since `x`
+    did (and the count and age bounds hold) — i.e. the only disagreement is a newest image that alone
+    exceeds `maxBytes`. -/
+theorem retention_specs_differ_only_on_oversized_newest (t : Thresholds) (L : List Spec.Arrival) (x now : Nat) :
+    Spec.retained (specThr t) L x now = true ↔
+      Spec.Retention.stillThere t (retLog L) x now = true ∨
+      ∃ a, Spec.latestFor L x = some a ∧ Spec.laterLatest L x = [] ∧ 0 < t.maxUploads ∧
+        now ≤ a.time + t.maxTime := by
+  rw [retained_iff, stillThere_iff]
+  constructor
+  · rintro ⟨a, hl, hn, hb | hb, ht⟩
+    · exact Or.inr ⟨a, hl, hb, by rw [hb] at hn; exact hn, ht⟩
+    · exact Or.inl ⟨a, hl, hn, hb, ht⟩
+  · rintro (⟨a, hl, hn, hb, ht⟩ | ⟨a, hl, he, hn, ht⟩)
+    · exact ⟨a, hl, hn, Or.inr hb, ht⟩
+    · exact ⟨a, hl, by rw [he]; exact hn, Or.inl he, ht⟩
+
+/-- the D16 hypothesis of C08 (`StrictTimes`) is the D16 hypothesis of C04 (`strictlyIncreasing` of every
+    terminal's ghost log) -/
+theorem strictTimes_iff_strictlyIncreasing (s : State) :
+    StrictTimes s ↔ ∀ T, Spec.Retention.strictlyIncreasing (retLog (s.logs T)) = true :=
+  forall_congr' fun T => (strictlyIncreasing_retLog (s.logs T)).symm
+
+/-- **C04's `needsUploading_sound` at full strength**, against C04's own specification `Spec.Retention`:
+    in the state after any history (requests on any number of terminals, allocations, forced bindings,
+    deletions, id and upload-table clean-ups, clock ticks), for any terminal `T`, threshold triple `t` and
+    id `x` that is bound: if `needs_uploading(x, T)` says no, then the latest arrival of `x` in `T`'s ghost
+    log carries the description now bound to `x` and is `stillThere` (`holdsCurrent`). Hypothesis: upload
+    times strictly increase per terminal (D16; `C04.tie_witness`, `strict_times_needed`). -/
+theorem needsUploading_sound (cfg : Cfg) (thr : String → Thresholds)
+    (steps : List Step) (hstrict : StrictTimes (Display.run cfg thr true State.init steps))
+    (T : String) (t : Thresholds) (x : Nat) (info : Row) :
+    let s := Display.run cfg thr true State.init steps
+    getInfo s.db x = .ok (some info) →
+    needsUploading s.db x T t s.now = .ok false →
+    Spec.Retention.holdsCurrent t (retLog (s.logs T)) x info.desc s.now = true := by
+  intro s hinfo hneeds
+  exact holdsCurrent_of_not_needs (run_good steps State.init (good_init cfg) hstrict).rel (hstrict T) hinfo hneeds
+
+/-- **C04's `needsUploading_complete`**, against `Spec.Retention`: in the state after any history, if the
+    record of `(x, T)` is present (it survived every upload-table clean-up), `x` is bound, and C04's
+    specification says `T` holds the bound description (`holdsCurrent`), then `needs_uploading(x, T)` says
+    no — no superfluous re-upload. (The invariant is established under `StrictTimes`; the comparison itself
+    only uses that times do not decrease.) -/
+theorem needsUploading_complete (cfg : Cfg) (thr : String → Thresholds)
+    (steps : List Step) (hstrict : StrictTimes (Display.run cfg thr true State.init steps))
+    (T : String) (t : Thresholds) (x : Nat) (info : Row) (row : URow) :
+    let s := Display.run cfg thr true State.init steps
+    getInfo s.db x = .ok (some info) → uploadRow s.db x T = some row →
+    Spec.Retention.holdsCurrent t (retLog (s.logs T)) x info.desc s.now = true →
+    needsUploading s.db x T t s.now = .ok false := by
+  intro s hinfo hrow hold
+  have hg := run_good steps State.init (good_init cfg) hstrict
+  exact not_needs_of_holdsCurrent hg.rel (C01.reachable_inv hg.reach).ukeys (nonDecreasing_of_strict (hstrict T))
+    hinfo hrow hold
+
+/-- the single disagreement of the two specifications is real: one image larger than the byte quota, nothing
+    after it — `Spec.Store` keeps it (a terminal holds what it has just received), `Spec.Retention` does not
+    (and `needs_uploading` then asks for the re-upload, which C04 judges correct) -/
+example :
+    Spec.retained (specThr { maxBytes := 50 }) [⟨1, "a", 1, 1, 100, 10⟩] 1 10 = true ∧
+    Spec.Retention.stillThere { maxBytes := 50 } (retLog [⟨1, "a", 1, 1, 100, 10⟩]) 1 10 = false := by
+  refine ⟨by decide, by decide⟩
 
 /-- the database of the display machine is always one the library can produce, so every theorem of
     C01/C02 about reachable databases (ids in the requested subspace, stable, LRU recycling) applies to
